@@ -917,23 +917,23 @@ func genHandlers(repo string) (string, string, error) {
 	sb.WriteString("   One record per entry of the jrpc2 handler map (CreateServer); body = linearised shared-state actions. *)\n")
 	sb.WriteString("From Coq Require Import String.\nFrom Coq Require Import List.\nFrom LH Require Import Model.Dispatch.\nImport ListNotations.\nLocal Open Scope string_scope.\n\n")
 	fmt.Fprintf(&sb, "Definition concurrency : nat := %d.\n\n", concurrency)
-	sb.WriteString("Definition handlers : list handler := [\n")
+	sb.WriteString("(* names are evaluated to character lists here (nm = list_ascii_of_string): extraction then needs no string type *)\nDefinition handlers : list handler := Eval vm_compute in [\n")
 	for i, r := range recs {
 		sep := ";"
 		if i == len(recs)-1 {
 			sep = ""
 		}
-		fmt.Fprintf(&sb, "  mkHandler %q %q %s\n    %s%s\n", r.method, r.fn, r.kind, hCoqBody(r.body), sep)
+		fmt.Fprintf(&sb, "  mkHandler (nm %q) (nm %q) %s\n    %s%s\n", r.method, r.fn, r.kind, hCoqBody(r.body), sep)
 	}
 	sb.WriteString("].\n\n")
 	sb.WriteString("(* goroutines started with `go` from handler code; `Spawn k` refers to entry k *)\n")
-	sb.WriteString("Definition background : list handler := [\n")
+	sb.WriteString("Definition background : list handler := Eval vm_compute in [\n")
 	for i, b := range g.bgs {
 		sep := ";"
 		if i == len(g.bgs)-1 {
 			sep = ""
 		}
-		fmt.Fprintf(&sb, "  mkHandler %q %q Background\n    %s%s\n", "$go/"+b.name, b.name, hCoqBody(hNormalise(b.body)), sep)
+		fmt.Fprintf(&sb, "  mkHandler (nm %q) (nm %q) Background\n    %s%s\n", "$go/"+b.name, b.name, hCoqBody(hNormalise(b.body)), sep)
 	}
 	sb.WriteString("].\n")
 	return out, sb.String(), nil
